@@ -8,23 +8,25 @@ from .. import coqrun as cq
 from .. import gen
 
 TECHNIQUE = 'Coq proof that modified Gram-Schmidt with drop threshold reconstructs the candidates + bit-exact fit_candidates correspondence + prolongator oracle'
-LEVEL_TEXT = ('Kernel-checked theorem (Props/C10.v) about the Gallina model of fit_candidates over any field and for any '
+LEVEL_TEXT = ('Kernel-checked theorems (Props/C10.v) about the Gallina model of fit_candidates over any field and for any '
               'function used as square root: for every aggregate, candidate block and threshold, each kept column of the '
               'local candidates equals sum_{i<=j} R[i,j] q_i (so T * B_coarse = B on every aggregated unknown), and a '
-              'dropped column differs by exactly the discarded remainder.  The model evaluated at PrimFloat must '
+              'dropped column differs by exactly the discarded remainder; and every Gram-Schmidt step preserves "columns '
+              'pairwise orthogonal, each of unit length (kept, given nrm^2 = |v|^2) or zero (dropped)", i.e. Q^T Q = '
+              'diag(1 or 0) by induction from the empty set.  The model evaluated at PrimFloat must '
               'reproduce bit-for-bit the Q and R arrays of the rebuilt working-tree kernel for all partitions with '
               'unaggregated rows, 1-3 candidates, nodal block sizes 1-3 and locally rank-deficient candidates; an oracle '
               'checks on the public routines: orthonormal-or-zero columns, T B_c = B, and for every prolongation smoother '
               '(Jacobi, Richardson, filtered Jacobi, energy minimisation with cg / cgnr / gmres, root-node) the preserved '
               'product P B_c = B, pattern containment, the Jacobi/Richardson polynomial, identity rows at root nodes.')
-LEVEL_NOTE = ('Orthonormality of the columns (needs sqrt^2 = id) and the constraint-projection / energy-minimisation '
+LEVEL_NOTE = ('The constraint-projection / energy-minimisation '
               'invariants are decided by the oracle, not by a theorem.  Complex candidates: oracle only.')
 RULE = ('random partitions of 4-12 nodes into aggregates (with unaggregated rows), K1 in 1..3, K2 in 1..3, candidates incl. '
         'locally rank-deficient and zero columns: amg_core.fit_candidates == FitCand model (PrimFloat, bit-exact); public '
         'fit_candidates real/complex; SA / root-node hierarchies with every smoothing variant, keep=True: P B_c == B, '
         'pattern containment, polynomial identity.  Non-trivial: an aggregate with >= 2 nodes.')
 TRUSTED = ['NumPy/SciPy on the oracle side', 'spectral-radius estimate inside the Jacobi/Richardson smoothers (value read back, not trusted)']
-PARTIAL = ['orthonormality, constraint projection, energy minimisation invariants, root-node identity rows: oracle only']
+PARTIAL = ['constraint projection, energy minimisation invariants, root-node identity rows: oracle only']
 HEADER = ('From Coq Require Import ZArith List PrimFloat.\nImport ListNotations.\n'
           'Require Import PV.Base.Ops PV.Model.FitCandRun.\nOpen Scope Z_scope.\n')
 I32 = np.int32
